@@ -16,7 +16,8 @@ Applicability (DESIGN §6 C04 "Reading", the reading that demands less):
 * userinfo      added / replaced / removed (never an empty host)
 * label         a whole label www | WWW | www2 | m | mobile | amp in FRONT of a host name (not an
                 IP literal); stacking is composition
-* amp-          a leading `amp-` in front of a host name that does not already start with it
+* amp-          a leading `amp-` in front of a host name none of whose labels starts with it (D19),
+                whatever else the host starts with (`amp-www.a.com`: FX-C04-a3404a2)
 * port          explicit 80 on http / scheme-less, explicit 443 on https, when no port is written
 * host case     ASCII letters of the host
 * slash         one trailing slash added / removed (not after an empty last segment)
@@ -51,8 +52,8 @@ THEOREMS = [P + n for n in [
     "norm_irrelevant_label",
     "documented_labels",
     "norm_irrelevant_label_front",
-    "norm_amp_dash_partial",
-    "fullAmpDash_fails",
+    "norm_amp_dash",
+    "ampDash_cut_once",
     "norm_trailing_slash",
     "norm_index",
     "norm_fragment_nonrouting",
@@ -72,7 +73,10 @@ THEOREMS = [P + n for n in [
     "norm_clean_congr",
     "preClean_surrounding",
     "norm_surrounding_ws",
-    "norm_surrounding_ws_redirect_partial",
+    "cleanedUrl_surrounding",
+    "infer_clean_irrelevant",
+    "norm_clean_irrelevant",
+    "norm_surrounding_ws_redirect",
 ]] + ["Ural.Normalize." + n for n in [
     "sortQsl_eq_of_perm",
     "qslLe_antisymm",
@@ -83,7 +87,10 @@ THEOREMS = [P + n for n in [
     "subdomainSub_join",
     "ampSub_append_segment",
     "domainFilter_front",
-]]
+    "keepLabels_idem",
+    "keepLabels_cons_keep",
+    "decode_join_fixed",
+]] + ["Ural.infer_clean_congr", "Ural.inferOf_clean_congr"]
 TABLE_OBLIGATIONS = [P + n for n in [
     "tracking_core_stripped",
     "tracking_core_amp",
@@ -561,6 +568,21 @@ CORPUS_PAIRS = [
     ("http://a.com/#%21/x", "http://a.com#!/x", "FX-d1a60c6"),
     # D20: what follows amp- may be punycode
     ("http://amp-xn--tlrama-bvab.fr/", "http://télérama.fr/", "D20"),
+    # FX-C04-a3404a2 (was KF-C04-2): what follows amp- may start with irrelevant labels
+    ("http://amp-www.a.com/p", "http://www.a.com/p", "FX-C04-a3404a2"),
+    ("http://amp-www.a.com/", "http://a.com/", "FX-C04-a3404a2"),
+    ("http://AMP-Mobile.www2.a.com/x", "http://a.com/x", "FX-C04-a3404a2"),
+    ("http://www.amp-m.amp.a.com/x?b=1", "http://a.com/x?b=1", "FX-C04-a3404a2"),
+    ("amp-m.lemonde.fr", "lemonde.fr", "FX-C04-a3404a2"),
+    # FX-C04-dcfec1d (was KF-C04-3): infer_redirection looks for its hints in the cleaned url
+    ("\x00http://a.com/x?redirect=/z", "http://a.com/x?redirect=/z", "FX-C04-dcfec1d"),
+    (" http://a.com/x?redirect=/z/index.html&y=1", "http://a.com/x?redirect=/z/index.html&y=1", "FX-C04-dcfec1d"),
+    ("\t\n a.com/x?url=/z", "a.com/x?url=/z", "FX-C04-dcfec1d"),
+    (" url=http://b.com/x", "url=http://b.com/x", "FX-C04-dcfec1d"),
+    ("http://a.com/?url=https:// ", "http://a.com/?url=https://", "FX-C04-dcfec1d"),
+    ("http://x.cdn.ampproject.org/c/ ", "http://x.cdn.ampproject.org/c/", "FX-C04-dcfec1d"),
+    (" " * 20 + "http://x&u=%2Fx@a.com/p", "http://x&u=%2Fx@a.com/p", "FX-C04-dcfec1d"),
+    ("http://a.com/x?redirect=/z \x00", "http://a.com/x?redirect=/z", "FX-C04-dcfec1d"),
 ]
 CORPUS_SINGLES = ["", " ", "http://a.com:99999/", "a.com?url=/z", "http://[::1", "http://a.com:x/", "a:b:c", "http://a.com/?next=http://[::1",
                   "http://a.com/?url=http://b.com:99999/", "http://x&u=/p", "\x00", "http://"]
@@ -730,12 +752,13 @@ ASSUMPTIONS = [
     "model alphabet: no non-ASCII character that str.lower() changes (DESIGN 4); such URLs go through the oracle only",
 ]
 UNPROVED = (
-    "All theorems are about the model over all inputs; none is `decide` over samples. PARTIAL: norm_amp_dash_partial "
-    "(hypothesis: what follows amp- does not start with an irrelevant label — fullAmpDash_fails shows amp-www.a.com, "
-    "known finding KF-C04-2 with patch); norm_amp_semicolon_partial (hypothesis: the item after '&amp;' does not itself "
-    "start with 'amp;' — fullAmpSemicolon_fails; outside the family); norm_surrounding_ws is for infer_redirection=False, "
-    "norm_surrounding_ws_redirect_partial needs the inference to commute with the cleaning (false for a relative target "
-    "behind leading whitespace: KF-C04-3 with patch). norm_query_permutation needs 'no item starts with amp;' when the "
+    "All theorems are about the model over all inputs; none is `decide` over samples. norm_amp_dash is full on the reading "
+    "(hypotheses: the host behind amp- is decoded — every label is its own decode_punycode_hostname, D20 is in the corpus — "
+    "and does not start with amp- once its irrelevant labels are gone: the prefix is cut once, D19, ampDash_cut_once); "
+    "norm_surrounding_ws / norm_surrounding_ws_redirect / norm_clean_irrelevant are full (URLs that parse; an unparseable "
+    "argument is returned as it is, C05) now that infer_redirection reads the cleaned url. PARTIAL: "
+    "norm_amp_semicolon_partial (hypothesis: the item after '&amp;' does not itself "
+    "start with 'amp;' — fullAmpSemicolon_fails; outside the family). norm_query_permutation needs 'no item starts with amp;' when the "
     "repair is on (the repair treats the first item differently). Not proved, explored on every run by oracle + "
     "correspondence of both spellings: (i) the CPython bridging from string transformations to component "
     "transformations; (ii) invariance of infer_redirection itself under the family (KF-C04-1 = D29: hints are searched in "
@@ -743,17 +766,13 @@ UNPROVED = (
     "platform_aware=True (abstract `platform`; KF-C04-4 = D53); (iv) non-absolute paths (no authority) for slash / index; "
     "(v) options: each theorem names the options it needs (strip_trailing_slash for the query and path theorems, lowercase off)."
 )
-LEVEL_NOTE = "proof about the model + differential execution of both spellings + oracle; four known findings (two with patches)"
+LEVEL_NOTE = "proof about the model + differential execution of both spellings + oracle; two known findings (design: D29, D53)"
 # ---------------------------------------------------------------------------------------
 # known findings (KNOWN_FINDINGS.json): predicates recognising exactly their class.
 # A composed case fails only if one of its steps u_i -> T_i(u_i) fails (equality is
 # transitive); it is attributed to the class of its first failing step, and only when every
 # failing step belongs to some class.
 # ---------------------------------------------------------------------------------------
-IRR_LABEL_RE = re.compile(r"^(?:www\d?|mobile|amp|m)\.", re.I)
-HIDDEN_RE = re.compile(r"^amp-(?:www\d?|mobile|amp|m)\.", re.I)
-
-
 def _norm(u, opts, **over):
     from ural import normalize_url
 
@@ -765,40 +784,20 @@ def _norm(u, opts, **over):
         return ("raised", type(e).__name__)
 
 
-def _strip_irr(r):
-    while isinstance(r, str) and IRR_LABEL_RE.match(r):
-        r = IRR_LABEL_RE.sub("", r, 1)
-    return r
+_CTRL_RE = re.compile("[\x00-\x1f\x7f-\x9f]")
 
 
-def _hidden(u):
-    """the host reads amp-<irrelevant label>. once its leading irrelevant labels are removed"""
-    from urllib.parse import urlsplit
-
-    try:
-        s = "".join(c for c in u if not (ord(c) < 0x20 or 0x7F <= ord(c) <= 0x9F)).strip()
-        h = urlsplit(s if SCHEME_LIKE_RE.match(s) else "http://" + s).hostname or ""
-    except ValueError:
-        return False
-    return HIDDEN_RE.match(_strip_irr(h)) is not None
-
-
-def _step_amp_dash(b, v, opts, t):
-    if not (_hidden(b) or _hidden(v)):
-        return False
-    return _strip_irr(_norm(b, opts)) == _strip_irr(_norm(v, opts))
-
-
-def _step_ws_redirect(b, v, opts, t):
-    from ural import infer_redirection
-
-    return t is not None and t[0] == "ws" and infer_redirection(b) != b
+def _cleaned(u):
+    return _CTRL_RE.sub("", u).strip()
 
 
 def _step_hint(b, v, opts, t):
     from ural import infer_redirection
 
-    if t is not None and t[0] == "ws":
+    # whitespace / control characters around the URL: infer_redirection looks at the cleaned
+    # string (FX-C04-dcfec1d), a difference between two strings with the same cleaned form is
+    # never this class
+    if (t is not None and t[0] == "ws") or _cleaned(b) == _cleaned(v):
         return False
     if infer_redirection(b) == b and infer_redirection(v) == v:
         return False
@@ -821,8 +820,6 @@ def _step_platform(b, v, opts, t):
 
 
 STEP_CLASSES = [
-    ("amp_dash_before_irrelevant_label", _step_amp_dash),
-    ("redirect_relative_after_whitespace", _step_ws_redirect),
     ("redirect_hint_on_raw_string", _step_hint),
     ("platform_rewriting_not_invariant", _step_platform),
 ]
@@ -870,20 +867,6 @@ def kf_redirect_hint_on_raw_string(case, failure):
     inserted after the hint cuts the outer fragment off the captured target); the normalization
     proper (infer_redirection=False) does not see the difference."""
     return _explain(case, failure) == "redirect_hint_on_raw_string"
-
-
-def kf_amp_dash_before_irrelevant_label(case, failure):
-    """KF-C04-2: the irrelevant-subdomain pass runs before the leading 'amp-' is cut, so what
-    'amp-' was hiding (amp-www.a.com -> www.a.com) is not looked at again: the two results
-    differ by leading irrelevant labels only, and one of the hosts reads amp-<irrelevant label>."""
-    return _explain(case, failure) == "amp_dash_before_irrelevant_label"
-
-
-def kf_redirect_relative_after_whitespace(case, failure):
-    """KF-C04-3: infer_redirection tests PROTOCOL_RE on the raw string, so leading whitespace /
-    control characters (removed by normalize_url only afterwards) make it resolve a relative
-    target against 'http://' + the url."""
-    return _explain(case, failure) == "redirect_relative_after_whitespace"
 
 
 def kf_platform_rewriting_not_invariant(case, failure):
